@@ -341,7 +341,7 @@ func (h *NFSProcedureHandler) handleMkdir(body io.Reader, reply *RPCReply, authC
 
 	newNode, err := h.server.handler.Lookup(dirPath)
 	if err != nil {
-		h.server.handler.fs.Remove(dirPath) // a failed request leaves nothing behind
+		h.server.handler.undoCreate(node.path, dirPath) // a failed request leaves nothing behind
 		return nfsErrorWithWcc(reply, mapError(err)), nil
 	}
 
